@@ -1,7 +1,322 @@
-(* WireStr.v — wire interfaces of the "str" area (see docs/AGENT_GUIDE.md for the id range).
-   [run_str c] receives the whole case (first element = interface id). *)
+(* WireStr.v — wire interfaces of the "str" area (ids 30-39), property C15.
+   [run_str c] receives the whole case (first element = interface id).
+
+   30  operation sequence over a pool of strings:
+         30 P (len cp*len)*P  op*          op  ::= opid dest nargs arg*nargs
+         arg   ::= 0 k                     pool entry k (global s<k>), top level only
+                 | datum
+         datum ::= 1 sign mag              Fixnum          | 6 sign mag    BigInt
+                 | 2 cp                    character       | 7 bits        Float (IEEE bits)
+                 | 3 n datum*n             (list ...)      | 8 sign n d    Rational n/d as stored
+                 | 4 n datum*n             (vector ...)    | 9 b           boolean
+                 | 5 n datum*n datum       (cons .. (cons .. tail))
+                 | 10 n cp*n               string literal
+       opid: index in [op_fn] (= OPS of harness/src/area_str.rs); opid 0 aliases pool
+       entry dest-1 to the argument.  dest = k+1 stores the result in pool entry k.
+       Result: "SEQ " then per operation  RES ; v0 ; v1 ...  joined by " | ", RES = OK <write
+       form> | ERR | PANIC | NOFUEL, v_i = write form of pool entry i after the operation.
+   31  lo n: the table-driven builtins on every code point lo..lo+n-1
+   39  (harness only) dump of the std tables                                            *)
 From Coq Require Import String.
-From MW Require Import Model.Base Model.Datum.
+From MW Require Import Model.Base Model.F64 Model.Num Model.Datum Model.TransformDef
+  Model.VmTypes Model.Heap Model.VmBase Model.Str.
 Open Scope N_scope.
 
-Definition run_str (c : list N) : list N := S_ "BADCASE".
+(* esc_text, additionally escaping the field separators | and ; *)
+Definition esc2_cp (c : cp) : list N :=
+  if (c =? 124) || (c =? 59) then [92; 117; 123] ++ show_hex c ++ [125] else esc_cp c.
+Definition esc2 (t : text) : list N := flat_map esc2_cp t.
+
+(* --------------------------------------------------------------- decoding *)
+Definition signed (sign mag : N) : Z := if sign =? 1 then (- Z.of_N mag)%Z else Z.of_N mag.
+
+Fixpoint take_n (n : nat) (l : list N) : option (list N * list N) :=
+  match n with
+  | O => Some ([], l)
+  | S k => match l with
+           | x :: r => match take_n k r with Some (a, b) => Some (x :: a, b) | None => None end
+           | [] => None
+           end
+  end.
+
+Fixpoint dec_datum (fuel : nat) (l : list N) {struct fuel} : option (cell * list N) :=
+  match fuel with
+  | O => None
+  | S f =>
+      let items := fix items (k : nat) (l : list N) : option (list cell * list N) :=
+        match k with
+        | O => Some ([], l)
+        | S k' =>
+            match dec_datum f l with
+            | Some (c, r) =>
+                match items k' r with Some (cs, r') => Some (c :: cs, r') | None => None end
+            | None => None
+            end
+        end in
+      match l with
+      | 1 :: sign :: mag :: r =>
+          let z := signed sign mag in if in_i64 z then Some (CNum (Fixnum z), r) else None
+      | 2 :: c :: r => if is_scalar c then Some (CChar c, r) else None
+      | 3 :: n :: r =>
+          if 64 <? n then None else
+          match items (N.to_nat n) r with Some (cs, r') => Some (mk_list cs CNil, r') | None => None end
+      | 4 :: n :: r =>
+          if 64 <? n then None else
+          match items (N.to_nat n) r with Some (cs, r') => Some (CVec cs, r') | None => None end
+      | 5 :: n :: r =>
+          if 64 <? n then None else
+          match items (N.to_nat n) r with
+          | Some (cs, r') =>
+              match dec_datum f r' with Some (tl, r'') => Some (mk_list cs tl, r'') | None => None end
+          | None => None
+          end
+      | 6 :: sign :: mag :: r => Some (CNum (BigInt (signed sign mag)), r)
+      | 7 :: bits :: r =>
+          if bits <? 18446744073709551616 then Some (CNum (Float (f64_of_bits (Z.of_N bits))), r) else None
+      | 8 :: sign :: n :: d :: r =>
+          if (2147483647 <? n) || (d =? 0) || (2147483647 <? d) then None
+          else Some (CNum (Rational (signed sign n) (Z.of_N d)), r)
+      | 9 :: b :: r => Some (CBool (negb (b =? 0)), r)
+      | 10 :: n :: r =>
+          if 64 <? n then None else
+          match take_n (N.to_nat n) r with
+          | Some (cs, r') => if forallb is_scalar cs then Some (CStr cs, r') else None
+          | None => None
+          end
+      | _ => None
+      end
+  end.
+
+Inductive warg := WPool (k : N) | WDat (c : cell).
+
+Definition dec_arg (npool : N) (l : list N) : option (warg * list N) :=
+  match l with
+  | 0 :: k :: r => if k <? npool then Some (WPool k, r) else None
+  | _ => match dec_datum (S (length l)) l with Some (c, r) => Some (WDat c, r) | None => None end
+  end.
+
+Fixpoint dec_args (npool : N) (n : nat) (l : list N) : option (list warg * list N) :=
+  match n with
+  | O => Some ([], l)
+  | S k =>
+      match dec_arg npool l with
+      | Some (a, r) => match dec_args npool k r with Some (al, r') => Some (a :: al, r') | None => None end
+      | None => None
+      end
+  end.
+
+Record wop := mk_wop { w_op : N; w_dest : N; w_args : list warg }.
+Definition NOPS : N := 48.
+
+Fixpoint dec_ops (fuel : nat) (npool : N) (l : list N) : option (list wop) :=
+  match fuel with
+  | O => None
+  | S f =>
+      match l with
+      | [] => Some []
+      | op :: dest :: nargs :: r =>
+          if (NOPS <=? op) || (npool <? dest) || (64 <? nargs) then None else
+          match dec_args npool (N.to_nat nargs) r with
+          | Some (args, r') =>
+              if (op =? 0) && ((dest =? 0) || negb (nargs =? 1)) then None else
+              match dec_ops f npool r' with Some ops => Some (mk_wop op dest args :: ops) | None => None end
+          | None => None
+          end
+      | _ => None
+      end
+  end.
+
+Fixpoint dec_pool (n : nat) (l : list N) : option (list text * list N) :=
+  match n with
+  | O => Some ([], l)
+  | S k =>
+      match l with
+      | len :: r =>
+          if 4096 <? len then None else
+          match take_n (N.to_nat len) r with
+          | Some (cs, r') =>
+              if forallb is_scalar cs then
+                match dec_pool k r' with Some (p, r'') => Some (cs :: p, r'') | None => None end
+              else None
+          | None => None
+          end
+      | [] => None
+      end
+  end.
+
+(* ------------------------------------------------------------- execution *)
+Definition op_fn (op nargs : N) : option (M vcell) :=
+  match op with
+  | 1 => Some string_length | 2 => Some string_ref | 3 => Some string_set
+  | 4 => Some string_copy | 5 => Some (substring nargs) | 6 => Some string_fill
+  | 7 => Some string_list | 8 => Some string_vector | 9 => Some vector_string
+  | 10 => Some list_string | 11 => Some string_ | 12 => Some make_string
+  | 13 => Some string_append
+  | 14 => Some (string_cmp CEq) | 15 => Some (string_cmp CLt) | 16 => Some (string_cmp CGt)
+  | 17 => Some (string_cmp CLe) | 18 => Some (string_cmp CGe)
+  | 19 => Some (string_ci_cmp CEq) | 20 => Some (string_ci_cmp CLt) | 21 => Some (string_ci_cmp CGt)
+  | 22 => Some (string_ci_cmp CLe) | 23 => Some (string_ci_cmp CGe)
+  | 24 => Some string_upcase | 25 => Some string_downcase | 26 => Some string_foldcase
+  | 27 => Some char_to_integer | 28 => Some integer_to_char
+  | 29 => Some char_is_alphabetic | 30 => Some char_is_numeric | 31 => Some char_is_whitespace
+  | 32 => Some char_is_upper_case | 33 => Some char_is_lower_case
+  | 34 => Some char_upcase | 35 => Some char_downcase | 36 => Some char_foldcase
+  | 37 => Some digit_value
+  | 38 => Some (char_cmp CEq) | 39 => Some (char_cmp CLt) | 40 => Some (char_cmp CGt)
+  | 41 => Some (char_cmp CLe) | 42 => Some (char_cmp CGe)
+  | 43 => Some (char_ci_cmp CEq) | 44 => Some (char_ci_cmp CLt) | 45 => Some (char_ci_cmp CGt)
+  | 46 => Some (char_ci_cmp CLe) | 47 => Some (char_ci_cmp CGe)
+  | _ => None
+  end.
+
+(* a constant of the expression placed in the heap (Heap::maybe_put_cell) *)
+Definition put_datum (c : cell) : M vcell := fun s =>
+  match maybe_put_cell (hp s) (st s) c with
+  | Ok (v, h, x) => ROk v (with_store (with_heap s h) x)
+  | Err e => RErr e [] s | Panic k => RPanic k | NoFuel => RNoFuel
+  end.
+
+Fixpoint eval_args (pool : list vcell) (l : list warg) : M (list vcell) :=
+  match l with
+  | [] => ret []
+  | a :: r =>
+      dom v <- match a with
+               | WPool k => match list_get pool k with Some v => ret v | None => fail E_OTHER end
+               | WDat c => put_datum c
+               end;
+      dom vs <- eval_args pool r; ret (v :: vs)
+  end.
+
+Definition cell_fuel (s : vm) : nat := N.to_nat (hlen (hp s)) + 8.
+Definition show_value (s : vm) (v : vcell) : list N :=
+  match get_as_cell builtin_name_default (hp s) (st s) (cell_fuel s) v with
+  | Ok c => esc2 (write c)
+  | _ => [63]
+  end.
+
+Fixpoint show_pool (s : vm) (pool : list vcell) : list N :=
+  match pool with
+  | [] => []
+  | v :: r => S_ " ; " ++ show_value s v ++ show_pool s r
+  end.
+
+Definition reset_sp (s : vm) : vm := with_sp s 0.
+
+(* one operation; returns the record text, the state and pool afterwards, and whether
+   the sequence continues *)
+Definition run_op (s : vm) (pool : list vcell) (o : wop) : list N * vm * list vcell * bool :=
+  let m : M vcell :=
+    dom args <- eval_args pool (w_args o);
+    if w_op o =? 0 then
+      match args with [v] => ret v | _ => fail E_OTHER end
+    else
+      match op_fn (w_op o) (len args) with
+      | Some f => run_builtin f args
+      | None => fail E_OTHER
+      end in
+  match m (reset_sp s) with
+  | ROk v s' =>
+      let pool' := if w_dest o =? 0 then pool else list_set pool (w_dest o - 1) v in
+      (S_ "OK " ++ show_value s' v ++ show_pool s' pool', s', pool', true)
+  | RErr _ _ s' => (S_ "ERR" ++ show_pool s' pool, s', pool, true)
+  | RPanic _ => (S_ "PANIC", s, pool, false)
+  | RNoFuel => (S_ "NOFUEL", s, pool, false)
+  end.
+
+Fixpoint run_ops (s : vm) (pool : list vcell) (ops : list wop) (first : bool) : list N :=
+  match ops with
+  | [] => []
+  | o :: r =>
+      let '(rec, s', pool', go) := run_op s pool o in
+      (if first then [] else S_ " | ") ++ rec ++ (if go then run_ops s' pool' r false else [])
+  end.
+
+Definition MODEL_CHUNK : N := 64.
+
+Fixpoint init_pool (l : list text) : M (list vcell) :=
+  match l with
+  | [] => ret []
+  | t :: r => dom v <- str_new t; dom vs <- init_pool r; ret (v :: vs)
+  end.
+
+Definition run_seq (c : list N) : list N :=
+  match c with
+  | npool :: r =>
+      if 16 <? npool then S_ "BADCASE" else
+      match dec_pool (N.to_nat npool) r with
+      | Some (strs, r') =>
+          match dec_ops (S (length r')) npool r' with
+          | Some ops =>
+              match init_pool strs (vm_empty MODEL_CHUNK) with
+              | ROk pool s => S_ "SEQ " ++ run_ops s pool ops true
+              | _ => S_ "BADCASE"
+              end
+          | None => S_ "BADCASE"
+          end
+      | None => S_ "BADCASE"
+      end
+  | [] => S_ "BADCASE"
+  end.
+
+(* ------------------------------------------------- 31: the table builtins *)
+Definition str_of_chars (cs : list cp) : M vcell := run_builtin string_ (map VChar cs).
+Definition on_string (f : M vcell) (cs : list cp) : M vcell :=
+  dom s <- str_of_chars cs; run_builtin f [s].
+
+Definition char_record (u : N) : M (list vcell) :=
+  let c1 (f : M vcell) := run_builtin f [VChar u] in
+  dom r1 <- run_builtin integer_to_char [VNum (Fixnum (Z.of_N u))];
+  dom r2 <- c1 char_to_integer;
+  dom r3 <- c1 char_is_alphabetic; dom r4 <- c1 char_is_numeric; dom r5 <- c1 char_is_whitespace;
+  dom r6 <- c1 char_is_upper_case; dom r7 <- c1 char_is_lower_case;
+  dom r8 <- c1 char_upcase; dom r9 <- c1 char_downcase; dom r10 <- c1 char_foldcase;
+  dom r11 <- c1 digit_value;
+  dom r12 <- on_string string_upcase [u];
+  dom r13 <- on_string string_downcase [u];
+  dom r14 <- on_string string_foldcase [65; SIGMA; u];
+  dom r15 <- on_string string_downcase [65; SIGMA; u; 65];
+  dom r16 <- on_string string_downcase [u; SIGMA];
+  ret [r1; r2; r3; r4; r5; r6; r7; r8; r9; r10; r11; r12; r13; r14; r15; r16].
+
+Fixpoint cells_of (s : vm) (l : list vcell) : out (list cell) :=
+  match l with
+  | [] => Ok []
+  | v :: r =>
+      do c <- get_as_cell builtin_name_default (hp s) (st s) (cell_fuel s) v;
+      do cs <- cells_of s r; Ok (c :: cs)
+  end.
+
+Definition show_res_list (r : res (list vcell)) : list N :=
+  match r with
+  | ROk vs s' => match cells_of s' vs with Ok cs => esc2 (write (mk_list cs CNil)) | _ => [63] end
+  | RErr _ _ _ => S_ "ERR"
+  | RPanic _ => S_ "PANIC"
+  | RNoFuel => S_ "NOFUEL"
+  end.
+
+Definition show_res_one (r : res vcell) : list N :=
+  match r with
+  | ROk v s' => show_value s' v
+  | RErr _ _ _ => S_ "ERR"
+  | RPanic _ => S_ "PANIC"
+  | RNoFuel => S_ "NOFUEL"
+  end.
+
+(* a fresh machine per code point: the records are independent of one another *)
+Fixpoint run_chars (n : nat) (u : N) : list N :=
+  match n with
+  | O => []
+  | S k =>
+      let s := vm_empty MODEL_CHUNK in
+      32 :: (if is_scalar u then show_res_list (char_record u s)
+             else show_res_one (run_builtin integer_to_char [VNum (Fixnum (Z.of_N u))] s))
+         ++ run_chars k (u + 1)
+  end.
+
+Definition run_str (c : list N) : list N :=
+  match c with
+  | 30 :: r => run_seq r
+  | [31; lo; n] =>
+      if (0x110000 <? lo) || (4096 <? n) then S_ "BADCASE" else S_ "CH" ++ run_chars (N.to_nat n) lo
+  | _ => S_ "BADCASE"
+  end.
